@@ -613,9 +613,9 @@ def stepping_clock_dates(ctx, viol, rng, n):
 
 
 def _end_to_end(ctx, viol, rng, i):
-    hint = rng.choice([0, 1, 2, 5, 30, 120]) if rng.random() < 0.7 else rng.randint(0, 500)
+    hint = rng.choice([0, 1, 2, 5, 30, 120, 3600, 90000]) if rng.random() < 0.7 else rng.randint(0, 500)
     j = rng.choice([0.0, 0.25, 1.0, 5.0, -1.0])
-    deadline = rng.choice([1.0, 4.0, 10.0, 60.0, 200.0, 1000.0])
+    deadline = rng.choice([1.0, 4.0, 10.0, 60.0, 200.0, 1000.0, 86430.0, 172845.0, 604805.0])  # incl. longer than a day
     dur = rng.choice([0.0, 0.25, 1.0])
     mode = rng.choice(["zero", "umax", "upper", "half", "seeded"])
     is_async = bool(i & 1)
